@@ -686,6 +686,15 @@ class AsyncFIXConnection:
         assert seqreset_msg.msg_type == FMsg.SEQUENCERESET
 
         if seqreset_msg.get(FTag.GapFillFlag, None) == "Y":
+            msg_seq_num = int(seqreset_msg[FTag.MsgSeqNum])
+            if (
+                msg_seq_num != self._session.next_num_in
+                or int(seqreset_msg[FTag.NewSeqNo]) <= msg_seq_num
+            ):
+                # GapFill is a sequenced message: numbered too high -> missing
+                #   messages have to be requested, too low -> duplicate, ignored;
+                #   and it can only move the expected number forward
+                return False
             if self._connection_state != ConnectionState.RESENDREQ_AWAITING:
                 self.log.warning(
                     "Getting SEQUENCERESET(GapFillFlag=Y) while not filling gaps"
@@ -703,6 +712,7 @@ class AsyncFIXConnection:
         self._journaler.set_seq_num(
             self._session, next_num_in=int(seqreset_msg[FTag.NewSeqNo])
         )
+        return True
 
     async def _finalize_message(self, msg: FIXMessage, raw_msg: bytes):
         """Final message processing (MsgSeqNum checks / journaling).
@@ -808,7 +818,9 @@ class AsyncFIXConnection:
             if msg.msg_type == FMsg.LOGON:
                 await self._process_logon(msg)
             elif msg.msg_type == FMsg.SEQUENCERESET:
-                await self._process_seqreset(msg)
+                if not await self._process_seqreset(msg):
+                    await self._check_seqnum_gaps(int(msg[FTag.MsgSeqNum]))
+                    return
             elif msg.msg_type == FMsg.LOGOUT:
                 await self._process_logout(msg)
 
